@@ -798,7 +798,8 @@ fn replay_tour(
                 }
                 "arrival" => {
                     seen_arrival = true;
-                    if sidx != stops.len() - 1 || aidx != activities.len() - 1 {
+                    // (a required break taken at the arrival time is rendered after the arrival activity in the last stop)
+                    if sidx != stops.len() - 1 || (aidx != activities.len() - 1 && shift.required_breaks == 0) {
                         rep.issue("C02", "arrival-misplaced", format!("tour {ti}: arrival at stop {sidx} activity {aidx}"));
                     }
                     match shift.end {
@@ -918,7 +919,8 @@ fn replay_tour(
                         for bp in b.places.iter() {
                             let loc_ok = match bp.loc {
                                 Some(l) => l == a_loc,
-                                None => a_loc == prev_act_loc,
+                                // with commute (clustering) the previous activity may sit away from the stop: not judged then
+                                None => a_loc == prev_act_loc || partial,
                             };
                             if loc_ok && bp.tag.as_deref() == tag {
                                 place_known = true;
